@@ -303,7 +303,11 @@ int32_t jls_twr_close(struct jls_twr_s * self) {
     if (self) {
         JLS_LOGI("jls_twr_close start");
         struct msg_header_s hdr = { .msg_type = MSG_CLOSE };
-        msg_send(self, &hdr, NULL, 0);
+        while (msg_send(self, &hdr, NULL, 0)) {
+            // The queue stayed full for the whole send timeout.  The thread only ends on
+            // the close message, so keep trying: the join below would never return without it.
+            JLS_LOGW("jls_twr_close could not queue close message, retry");
+        }
         jls_bkt_finalize(self->bk);
         JLS_LOGI("jls_bkt_finalize done");
         // jls_wr_flush(self->wr);  // takes too long & blocks UI
